@@ -162,6 +162,36 @@ theorem handoff (A : Auth α) (s : St α) (hs : List Bytes) (last rest : Bytes) 
     · rw [hrf.1]; rfl
     · rw [hrf.1]; exact hb.2.2
 
+/-- **C04 in one sentence, binary mode.**  The messages `ms` (well-formed for framing - which every
+message `_marshal` constructs is: `wellFormed_of_layout` applied to C03 `marshal_wellformed`) are sent
+back to back and the stream is cut into reads in ANY way: the receiver's effects are exactly the
+deliveries of `ms`, each once, in order, and nothing stays buffered. -/
+theorem delivers_messages_sent (A : Auth α) (s : St α) (ms reads : List Bytes)
+    (ha : s.authenticated = true) (hbuf : s.buffer = []) (hnext : s.nextMsgLen = 0)
+    (hwf : ∀ m ∈ ms, Spec.WellFormed m) (h : reads.flatten = ms.flatten) :
+    (run A s reads).2 = ms.map Effect.msg ∧ (run A s reads).1.buffer = [] := by
+  have hf : Framed s := Or.inl ⟨hnext, by show s.buffer.length < 16; rw [hbuf]; decide⟩
+  have hb := binary_partition_independent A s reads ha hf
+  rw [hbuf, List.nil_append, h, frames_of_messages ms hwf] at hb
+  exact ⟨hb.1, hb.2.1⟩
+
+/-- **C04 in one sentence, behind a handshake.**  Handshake as in `handoff`, followed by the messages
+`ms`; any cutting (the first messages may share a read with the final handshake line): exactly `ms` is
+delivered, in order, each once. -/
+theorem delivers_messages_sent_after_handshake (A : Auth α) (s : St α) (hs : List Bytes) (last : Bytes)
+    (ms reads : List Bytes) (a1 a' : α)
+    (hr : Ready s) (ha : s.authenticated = false) (hbuf : s.buffer = []) (hcl : s.closed = false)
+    (hnext : s.nextMsgLen = 0)
+    (hlines : ∀ l ∈ hs ++ [last], Spec.hasCRLF l = false ∧ l.length ≤ maxAuthLength)
+    (hrun : authRun A s.auth hs = some a1) (hlast : A.handle a1 last = (a', .success))
+    (hwf : ∀ m ∈ ms, Spec.WellFormed m)
+    (hne : reads ≠ []) (hreads : reads.flatten = Spec.unlines (hs ++ [last]) ++ ms.flatten) :
+    linesOf (run A s reads).2 = hs ++ [last] ∧ msgsOf (run A s reads).2 = ms ∧
+    (run A s reads).1.buffer = [] := by
+  have h := handoff A s hs last ms.flatten reads a1 a' hr ha hbuf hcl hnext hlines hrun hlast hne hreads
+  rw [frames_of_messages ms hwf] at h
+  exact ⟨h.1, h.2.1, h.2.2.1⟩
+
 /-- C04.4 for a freshly connected server (NUL byte first, first read not empty). -/
 theorem handoff_server (A : Auth α) (s : St α) (hs : List Bytes) (last rest d : Bytes) (ds : List Bytes)
     (a1 a' : α)
@@ -218,6 +248,15 @@ theorem loop_bounded (A : Auth α) (s : St α) (d : Bytes) (ha : s.authenticated
       = (s.buffer ++ d).length := by rw [hcons]
   simp only [List.length_append] at h2
   omega
+
+/-- **Tie to the source (control flow).**  Three facts of `dataReceived` that the model mirrors by
+hand and that no constant captures are measured on the running code by tools/tables/c04_proto.py on
+every run: the binary branch is a loop (more coalesced messages than the interpreter allows nested
+calls are delivered - `binLoop`), the hand-off re-joins exactly the bytes that follow the final line
+(`lines[lineno + 1:] + [buffer]` - `lineFinish`), and the remainder length check is not applied to
+message bytes behind the final line (`for ... else` position - `lineFinish`, case `done` only). -/
+theorem model_control_flow_matches_source :
+    binaryBranchIterates = true ∧ handoffRejoinsRest = true ∧ remainderCheckAfterLoop = true := by decide
 
 /-! ## Witnesses: the models of the code before the repairs violate the property -/
 
@@ -278,9 +317,15 @@ open Txdbus.Proto in
 open Txdbus.Proto in
 #print axioms handoff
 open Txdbus.Proto in
+#print axioms delivers_messages_sent
+open Txdbus.Proto in
+#print axioms delivers_messages_sent_after_handshake
+open Txdbus.Proto in
 #print axioms handoff_server
 open Txdbus.Proto in
 #print axioms loop_bounded
+open Txdbus.Proto in
+#print axioms model_control_flow_matches_source
 open Txdbus.Proto in
 #print axioms prefix_recursion_depth_grows
 open Txdbus.Proto in
